@@ -5,6 +5,7 @@ import (
 	"crypto/ed25519"
 	"encoding/hex"
 	"encoding/json"
+	"errors"
 	"fmt"
 	"os"
 	"strings"
@@ -45,11 +46,19 @@ const topic = "sim"
 type capBoard struct {
 	mu   sync.Mutex
 	Sent []storage.Message
+	// FailNext: the board is unreachable for the next Send (fault injection)
+	FailNext bool
+	Failed   int
 }
 
 func (b *capBoard) Send(msgs ...storage.Message) error {
 	b.mu.Lock()
 	defer b.mu.Unlock()
+	if b.FailNext {
+		b.FailNext = false
+		b.Failed++
+		return errors.New("sim: board unreachable")
+	}
 	for i := range msgs {
 		msgs[i].Offset = uint64(len(b.Sent))
 		msgs[i].ID = fmt.Sprintf("cap-%d", len(b.Sent))
